@@ -1,10 +1,10 @@
 """C01 -- see DESIGN.md section 5.  Deductive targets are added below the bounded import."""
 PROP = "C01"
 LEVEL = "other"
-EXPLANATION = ('Deductive: Args.option / is_option_set / argument / is_argument_set are verified against contracts that give the answer as a function of the ELEMENT a name denotes (stored value, else declared default, else False for a value-less option; KeyError-free for every way of naming), so access by long name, short name or position agrees for every well-formed format; typed conversion on store is C07.  Bounded: generated formats x assignments x spellings parsed in strict and lenient mode by a fresh and by a long-lived parser and compared with the intended assignment.')
+EXPLANATION = ('Deductive: Args.option / is_option_set / argument / is_argument_set are verified against contracts that give the answer as a function of the ELEMENT a name denotes (stored value, else declared default, else False for a value-less option; KeyError-free for every way of naming), so access by long name, short name or position agrees for every well-formed format; Args.options() hands out a fresh snapshot and leaves the stored map untouched; Args.set_option (value-less and single-valued options) and Args.set_argument (single-valued) store, under the own name of the element, True / nothing for a flag and otherwise a value of the declared type (None only for a nullable element given None or the text null), change nothing else and store nothing when the conversion raises ValueError; the conversions themselves are C07.  Bounded: generated formats x assignments x spellings parsed in strict and lenient mode by a fresh and by a long-lived parser and compared with the intended assignment.')
 LEVEL_NOTE = ("assumes: the format's lookups behave as a well-formed format (the view and invariant of C06); the full round trip parse(spell(fmt, A)) == A needs Seq(String) invariants over the parser loops that neither solver decides: bounded only")
 from . import args_contracts as acx
-TARGETS = [acx.A + m for m in ("option", "is_option_set", "argument", "is_argument_set", "options")]
+TARGETS = [acx.A + m for m in ("option", "is_option_set", "argument", "is_argument_set", "options")] + acx.SET_OPTION_TARGETS
 LEMMAS = []
 try:
     from .C01_bounded import bounded, BOUNDED_RULE  # noqa: F401
